@@ -86,6 +86,8 @@ def parse_child(stdout):
 
 def run_child(spec, scratch, prefix=None, timeout=CHILD_TIMEOUT):
     """returns (returncode, parsed result or None, stderr tail)"""
+    if "pin_ids" not in spec and not prefix:
+        spec = dict(spec, pin_ids=True)        # loaders that run one after the other: each is "PID 1" (see dschild)
     cmd = (prefix or []) + child_cmd(spec, scratch)
     try:
         # cwd = scratch: a loader that wrote to a relative path would be seen there, never in /verif
